@@ -9,7 +9,7 @@ open Gd Gd.Mindustry
 /-- At most `retries + 1` pings, whatever is received, for every script, fault vector, retry setting. -/
 theorem C13_mindustry_send_bound (port retries : Nat) (script : List ConnScript) (faults : List Bool) :
     nSends (query port retries (Net.init script faults)).2.log ≤ retries + 1 :=
-  (sends_query port retries).total script faults
+  (qsends_query port retries).total script faults
 
 /-- The form the trace oracle checks (`send_units` = 1). -/
 theorem C13_mindustry_send_bound_units (port retries : Nat) (script : List ConnScript) (faults : List Bool) :
